@@ -3,8 +3,9 @@
 translate  : translate/c16_callpaths.py regenerates lean/SteelVerif/C17/GenPollsTable.lean (poll at the head of the
              dispatch loop; which self-tail-call opcodes jit2/cgen.rs compiles to a native back-edge, with/without poll).
 prove      : lake build SteelVerif.C17.Props + GenPolls + axiom audit.  Theorems (Props.lean): interrupt_bounded,
-             interrupt_not_lost_partial (guard: no own stop/resume pair overlaps a pending request), resume_usable,
-             and the negation witnesses not_interrupt_not_lost (K17a), not_interrupt_bounded_native (K17b).
+             interrupt_not_lost_partial (guard: no own stop/resume pair overlaps a pending request),
+             interrupt_delivered_partial (guard G2: the thread never parks on a request), resume_usable, and the negation
+             witnesses not_interrupt_not_lost (K17a), not_interrupt_bounded_native (K17b), not_interrupt_delivered (K17c).
 correspond : the REAL engine (harness c17): for looping program shapes x JIT on/off x request positions, a watcher thread
              calls ThreadStateController::interrupt() on the controller from Engine::get_thread_state_controller(); the
              evaluation must return the interrupt error within the bound after ONE request, and after resume() a probe
@@ -23,8 +24,8 @@ META = {
     "ready": False,
     "category": "proof",
     "technique": "Lean 4 transition-system proofs (single engine thread + host on one controller, every store/load of the pause flag and state atomic) + table regenerated from jit2/cgen.rs + interruption of the real engine for looping shapes x JIT on/off x request positions, deterministic replay through cfg(steel_verif) yield points",
-    "level_text": "Theorems (lean/SteelVerif/C17/Props.lean) about the model of the poll / interrupt / resume protocol: interrupt_bounded - once interrupt() has completed, the evaluation returns within B+5 further steps of the thread, B = longest native region entered, for every mix of ordinary instructions, primitives, nested vm() loops of higher-order built-ins and native calls; interrupt_not_lost_partial - for every interleaving of thread steps and host requests in which no stop_threads()/resume_threads() pair of the thread's own collection or global update overlaps a pending request, the request stays visible to the poll; resume_usable - after the error and resume() the engine polls through. The full statements are false for the code as it is and the negations are proved from concrete traces: not_interrupt_not_lost (resume() of the thread's own round erases the request: finding K17a), not_interrupt_bounded_native (a native back-edge without poll never returns: K17b; the table of back-edge opcodes is regenerated from jit2/cgen.rs and checked by decide). What is NOT a theorem: that the real engine follows the model - that is the differential run (looping shapes x JIT on/off x request positions on the real engine, wall-clock bound) and the forced replays through the yield-point hooks.",
-    "level_note": "Trusted: Lean kernel (axioms propext, Classical.choice, Quot.sound), the harness / watcher thread / python comparison, the regex translator over jit2/cgen.rs and vm.rs. Modelled, not verified: sequentially consistent atomics (the code uses Relaxed), one engine thread (multi-thread rounds are C15/C16), wall-clock time (the bound is in steps in the theorem, 1.5-2 s in the run), primitives that loop internally without returning (one script step each). Request positions in the hook-free run are wall-clock delays after the script signalled that it is inside its loop, not instruction counts.",
+    "level_text": "Theorems (lean/SteelVerif/C17/Props.lean) about the model of the poll / interrupt / resume protocol: interrupt_bounded - once interrupt() has completed, the evaluation returns within B+5 further steps of the thread, B = longest native region entered, for every mix of ordinary instructions, primitives, nested vm() loops of higher-order built-ins and native calls; interrupt_not_lost_partial - for every interleaving of thread steps and host requests in which no stop_threads()/resume_threads() pair of the thread's own collection or global update overlaps a pending request, the request stays visible to the poll; interrupt_delivered_partial - under the stronger guard G2 (the thread does not execute the state load of a safepoint exit loop while a request is between its two stores; the host resumes only after run returned) the thread never parks on a request and a complete pending request finds it ready; resume_usable - after the error and resume() the engine polls through. The full statements are false for the code as it is and the negations are proved from concrete traces: not_interrupt_not_lost (resume() of the thread's own round erases the request: finding K17a), not_interrupt_delivered (interrupt() is two stores; a thread leaving a safepoint between them parks and nobody unparks it: K17c), not_interrupt_bounded_native (a native back-edge without poll never returns: K17b; the table of back-edge opcodes is regenerated from jit2/cgen.rs and checked by decide). What is NOT a theorem: that the real engine follows the model - that is the differential run (looping shapes x JIT on/off x request positions on the real engine, wall-clock bound) and the forced replays through the yield-point hooks.",
+    "level_note": "Trusted: Lean kernel (axioms propext, Classical.choice, Quot.sound), the harness / watcher thread / python comparison, the regex translator over jit2/cgen.rs and vm.rs. Modelled, not verified: sequentially consistent atomics (the code uses Relaxed), one engine thread (multi-thread rounds are C15/C16), wall-clock time (the bound is in steps in the theorem; in the run it is 400 ms of CPU time of the evaluation thread, read from /proc, so that machine load does not count), primitives that loop internally without returning (one script step each). Request positions in the hook-free run are wall-clock delays after the script signalled that it is inside its loop, not instruction counts.",
 }
 
 BIN = "c17"
@@ -138,6 +139,14 @@ def classify(ctx, name, tags, jit, kv, known, stats, replay_line):
     if oc.startswith("finished") or oc.startswith("error:"):
         stats["not_looping"].append((name, jit, oc))
         return
+    if oc == "starved":
+        stats["starved"] += 1
+        return
+    if oc == "hang-parked" and "K17c" in known:
+        stats["k17c"] += 1
+        kf(ctx, "K17c", "id=K17c class=interrupt_between_its_two_stores_at_safepoint_exit replay=%s (shape %s, jit=%s: the evaluation "
+           "thread parked for ever, cpu_ms=%s)" % (known["K17c"]["replay"], name, jit, kv.get("cpu_ms")))
+        return
     lost = oc in ("lost-then-interrupted", "hang")
     if lost and "rounds" in tags and "K17a" in known and kv.get("probe", "ok") in ("ok", "skipped"):
         stats["k17a"] += 1
@@ -178,6 +187,10 @@ def forced(ctx, known, stats):
                 continue
             if delivered:
                 stats["forced_delivered"] += 1
+            elif "K17c" in known and fn.startswith("k17c") and "outcome=hang" in line:
+                stats["k17c_forced"] += 1
+                kf(ctx, "K17c", "id=K17c class=interrupt_between_its_two_stores_at_safepoint_exit replay=%s (forced schedule corpus/C17/%s, "
+                   "jit=%s: the evaluation thread parked for ever)" % (known["K17c"]["replay"], fn, jit))
             elif "K17a" in known and fn.startswith("k17a"):
                 stats["k17a_forced"] += 1
                 kf(ctx, "K17a", "id=K17a class=interrupt_request_overlaps_own_stop_round replay=%s (forced schedule corpus/C17/%s, jit=%s: %s)"
@@ -209,7 +222,8 @@ def model_corpus(ctx, stats):
 def run(ctx):
     _SEEN.clear()
     rnd = random.Random(ctx.seed * 7919 + 17)
-    stats = {"cases": 0, "pass": 0, "viol": 0, "k17a": 0, "k17b": 0, "lat": [], "not_looping": [], "forced": 0,
+    stats = {"cases": 0, "pass": 0, "viol": 0, "k17a": 0, "k17b": 0, "k17c": 0, "k17c_forced": 0, "starved": 0, "lat": [],
+             "not_looping": [], "forced": 0,
              "forced_delivered": 0, "k17a_forced": 0, "forced_unsched": [], "model_cases": 0}
     known = {k["id"]: k for k in ctx.load_known()}
     # translate
@@ -229,7 +243,7 @@ def run(ctx):
 
     shapes = QUICK_SHAPES if ctx.quick() else list(SHAPES)
     npos = 6 if ctx.quick() else 40
-    bound = 1500
+    bound = 400      # ms of CPU time of the evaluation thread (wall-clock cap 12x)
     jobs = []
     for name in shapes:
         prog, tags = SHAPES[name]
@@ -242,7 +256,7 @@ def run(ctx):
 
     def work(job):
         name, tags, jit, lines = job
-        return job, run_cases(lines, jit, timeout=20 + len(lines) * (2 * bound / 1000.0 + 1.0))
+        return job, run_cases(lines, jit, timeout=30 + len(lines) * (12 * bound / 1000.0 + 1.0))
 
     for (name, tags, jit, lines), res in C.pool_map(work, jobs, workers=max(4, C.NCPU - 2)):
         for ln in lines:
@@ -256,14 +270,14 @@ def run(ctx):
         for k, d in enumerate((0, 50, 300)):
             early.append("case\t%s@early%d\tearly\t%d\t%d\t%s\n" % (name, k, d, bound, prog))
     for jit in ("true", "false"):
-        res = run_cases(early, jit, timeout=120)
+        res = run_cases(early, jit, timeout=200)
         for ln in early:
             cid = ln.split("\t")[1]
             classify(ctx, cid.split("@")[0], set(), jit, res.get(cid, {"outcome": "missing", "raw": "no verdict"}),
                      known, stats, ln)
     # the witnesses of the open findings must still fail (otherwise: note, the entry may be stale)
     for kid in ("K17a", "K17b"):
-        if kid in known:
+        if kid in known and known[kid]["replay"].endswith(".txt"):
             seen = stats["k17a"] + stats["k17a_forced"] if kid == "K17a" else stats["k17b"]
             if seen == 0:
                 r = replay_file(os.path.join(C.VERIF, known[kid]["replay"]))
@@ -293,13 +307,16 @@ def run(ctx):
         "delivered_after_one_request": stats["pass"],
         "latency_us_median": lat[len(lat) // 2] if lat else None, "latency_us_max": lat[-1] if lat else None,
         "known_K17a_cases": stats["k17a"], "known_K17a_forced": stats["k17a_forced"], "known_K17b_cases": stats["k17b"],
+        "known_K17c_cases": stats["k17c"], "known_K17c_forced": stats["k17c_forced"],
+        "cases_without_verdict_because_the_thread_was_starved": stats["starved"],
         "forced_schedules": stats["forced"], "forced_delivered": stats["forced_delivered"],
         "forced_not_schedulable": stats["forced_unsched"], "forced_results": [(a, b, c) for a, b, c, _ in fres],
         "model_schedules": stats["model_cases"],
         "shapes_that_did_not_loop": stats["not_looping"],
         "axioms": pr.get("axioms", {}), "proof_failures": ["%s: %s" % f for f in pr["failed"]],
     }
-    ctx.assumptions = ["SC atomics", "single engine thread in the model", "wall-clock bound %d ms" % bound]
+    ctx.assumptions = ["SC atomics", "single engine thread in the model",
+                       "bound %d ms of CPU time of the evaluation thread per waiting period" % bound]
     return ctx.finish("proof")
 
 
